@@ -78,6 +78,20 @@ def tx_lines(chk):
         # ... and of the marker byte
         for v in (1, 2, 0xfd, 0xff):
             add((b[:4] + bytes([v]) + b[5:]).hex())
+    # lengths and counts of 253 and more written in a longer form than necessary, with all the data present (refused: non-canonical)
+    for v in (253, 260, 600):
+        for form in ("fe", "ff", "fd"):
+            cs = {"fd": "fd" + v.to_bytes(2, "little").hex(), "fe": "fe" + v.to_bytes(4, "little").hex(), "ff": "ff" + v.to_bytes(8, "little").hex()}[form]
+            body = "11" * v
+            add("01000000" + "01" + "22" * 32 + "00000000" + cs + body + "ffffffff" + "01" + "00" * 8 + "00" + "00000000")            # scriptSig length
+            add("01000000" + "01" + "22" * 32 + "00000000" + "00" + "ffffffff" + "01" + "00" * 8 + cs + body + "00000000")             # scriptPubKey length
+            add("01000000" + "0001" + "01" + "22" * 32 + "00000000" + "00" + "ffffffff" + "01" + "00" * 8 + "00" + "01" + cs + body + "00000000")   # witness item length
+    for v in (253, 300):
+        for form in ("fe", "ff", "fd"):
+            cs = {"fd": "fd" + v.to_bytes(2, "little").hex(), "fe": "fe" + v.to_bytes(4, "little").hex(), "ff": "ff" + v.to_bytes(8, "little").hex()}[form]
+            add("01000000" + cs + ("33" * 32 + "00000000" + "00" + "ffffffff") * v + "01" + "00" * 8 + "00" + "00000000")                 # input count
+            add("01000000" + "01" + "22" * 32 + "00000000" + "00" + "ffffffff" + cs + ("00" * 8 + "00") * v + "00000000")                  # output count
+            add("01000000" + "0001" + "01" + "22" * 32 + "00000000" + "00" + "ffffffff" + "01" + "00" * 8 + "00" + cs + "00" * v + "00000000")   # witness item count
     # compact-size forms
     base = "01000000"
     for cs in ["fd0000", "fdfc00", "fdfd00", "fe00000000", "feffff0000", "fe00000100", "ff0000000000000000", "fdffff", "fe00000002", "fe01000002", "feffffffff",
